@@ -1,16 +1,21 @@
 import Infretis.Lemmas.Template
 import Infretis.Lemmas.TemplateSubst
 import Infretis.Lemmas.TemplateNow
+import Infretis.Lemmas.TemplateWords
+import Infretis.Lemmas.TemplateReSub
 import Infretis.Lemmas.TemplateCp2k
+import Infretis.Lemmas.TemplateCp2kMany
+import Infretis.Lemmas.TemplateCp2kWitness
 import Infretis.Lemmas.CodecFixed
 import Infretis.Lemmas.CodecLmp
 import Infretis.Lemmas.CodecBox
+import Infretis.Lemmas.CodecBoxData
 /-!
 # C19 — configuration, trajectory and input-template codecs are lossless
 
 Property theorems only.  Models:
 * `Infretis/Model/Template.lean` — `_modify_input`, `_read_input_settings`, `write_for_run` (the code after the
-  repairs eaf64e1 / f746fff; the `…AsIs` definitions are the code before them, kept as record)
+  repairs eaf64e1 / f746fff / 48a6c1e; the `…AsIs` and `…Sub` definitions are the code before them, kept as record)
 * `Infretis/Model/TemplateCp2k.lean` — the CP2K section-tree editor (`update_cp2k_input` and friends)
 * `Infretis/Model/Codec.lean` — decimal fixed point, `.g96` and extended-xyz readers/writers
 * `Infretis/Model/CodecLmp.lean` — `.lammpstrj` (numbers as opaque numpy tokens) and the TRR byte layout
@@ -133,18 +138,21 @@ theorem mdp_asIs_edit_idempotent_counterexample :
 
 /-! ## 2. LAMMPS `write_for_run`
 
-`writeForRun s t` = (pieces written to the output file, how the call ended), for the code as
-it is now (after the repair f746fff: `not_found.pop(var, None)`).  `writeForRunAsIs` is the code
-before the repair (finding C19:lammps:variable-on-two-lines).  `occ k L` is the number of lines
-of `L` on which the variable `k` is a white-space separated token. -/
+`writeForRun s t` = (pieces written to the output file, how the call ended), for the code as it is now
+(after the repairs f746fff: `not_found.pop(var, None)`, and 48a6c1e: a variable is replaced only where it is a
+whole word, `re.sub(r"(?<!\S)" + re.escape(var) + r"(?!\S)", value, line)`).  `substOfW s l` is what the inner
+loop makes of the line `l`; `wordsLine s l` / `wordsText s t` is the SPECIFICATION "exactly the words that are
+requested variables become their values, every other character is kept" (`Model/Template.lean`);
+`occ k L` is the number of lines of `L` on which the variable `k` is a white-space separated word.
+White space is Python's `str.isspace` (29 code points, ASCII and not).  The records of the code before the
+two repairs are in section 2b. -/
 
-/-- **edit_total / edit_exact (LAMMPS), full strength.**  Every template line is written, with
-    every variable that is one of its tokens substring-replaced (`substOf`); the call never
-    raises KeyError; it ends without error iff every variable is a token of at least one line,
-    and with the ValueError iff some variable is a token of no line.  Only guard: the settings
-    are a dict (distinct keys). -/
+/-- **edit_total (LAMMPS), full strength.**  Every template line is written, passed through the per-line
+    function `substOfW`; the call never raises KeyError; it ends without error iff every variable is a word
+    of at least one line, and with the ValueError iff some variable is a word of no line.  Only guard: the
+    settings are a dict (distinct keys). -/
 theorem lammps_edit_total (s : Settings) (t : Str) (hnd : (keys s).Nodup) :
-    (writeForRun s t).written = (linesKeep t).map (substOf s) ∧
+    (writeForRun s t).written = (linesKeep t).map (substOfW s) ∧
     ((writeForRun s t).err = none ↔ ∀ k ∈ keys s, 1 ≤ occ k (linesKeep t)) ∧
     ((writeForRun s t).err = some .value ↔ ∃ k ∈ keys s, occ k (linesKeep t) = 0) ∧
     (writeForRun s t).err ≠ some .key := by
@@ -158,7 +166,6 @@ theorem lammps_edit_total (s : Settings) (t : Str) (hnd : (keys s).Nodup) :
     cases e with
     | value => rw [hcase] at hk; cases hk
     | key =>
-      -- the error is `none` or `value`: decide by whether a variable is missing
       by_cases hmiss : ∃ k ∈ keys s, occ k (linesKeep t) = 0
       · have := (show (writeForRun s t).err = some .value from by simpa [writeForRun] using c.2 hmiss)
         rw [hcase] at this; cases this
@@ -168,19 +175,229 @@ theorem lammps_edit_total (s : Settings) (t : Str) (hnd : (keys s).Nodup) :
         have := (show (writeForRun s t).err = none from by simpa [writeForRun] using b.2 hall)
         rw [hcase] at this; cases this
 
-/-- a line none of whose tokens is a variable is copied unchanged -/
+example : (keys [("infretis_x".toList, "5".toList)]).Nodup ∧
+    writeForRun [("infretis_x".toList, "5".toList)] "variable a equal infretis_x\nrun infretis_x\n".toList
+    = { written := ["variable a equal 5\n".toList, "run 5\n".toList], err := none } := by decide +kernel
+
+/-- **the per-line function, word by word — no hypothesis at all.**  The line is its leading white space
+    followed by (word, white space) pairs (`decomp`); the output keeps every white-space character and replaces
+    each word by what the chain of whole-word replacements of the line's variables (`onLine s l`, dict order)
+    makes of that word alone.  In particular nothing outside a word changes and words do not interact. -/
+theorem lammps_edit_tokenwise (s : Settings) (l : Str) :
+    substOfW s l = (decomp l).1 ++ body ((decomp l).2.map (fun tw => (chain (onLine s l) tw.1, tw.2))) :=
+  substOfW_tokenwise s l
+
+/-- …and on a single word the replacement is: the value if the word IS the variable, else the word
+    (a word that merely contains the variable is kept) -/
+theorem lammps_word_replaced_iff_equal (k v t : Str) (hk : k ≠ []) (hkw : ∀ c ∈ k, isSpace c = false)
+    (ht : ∀ c ∈ t, isSpace c = false) (hne : t ≠ []) :
+    reSubWord k v t = if t = k then v else t :=
+  reSubWord_token v hk hkw ht hne
+
+example : reSubWord "infretis_n".toList "7".toList "infretis_name".toList = "infretis_name".toList ∧
+    reSubWord "infretis_n".toList "7".toList "infretis_n".toList = "7".toList := by decide +kernel
+
+/-- **edit_exact (LAMMPS): the code against the word-level specification.**  Guard (besides "the settings are a
+    dict"): on every line, of two variables that are both words of that line, the LATER one in dict order is no
+    word of the EARLIER one's value.  Then the written lines are exactly the template lines with the words that
+    are requested variables set to their values — every other character (white space, other words, longer words
+    containing a variable name, values with blanks or variable names inside longer words) is kept.
+    The guard cannot be dropped (`lammps_edit_words_guard_counterexample`): the substitutions of one line are
+    applied one after the other to the CURRENT line, so a value inserted earlier is seen by later variables. -/
+theorem lammps_edit_words (s : Settings) (t : Str) (hnd : (keys s).Nodup)
+    (G : ∀ l ∈ linesKeep t, (onLine s l).Pairwise (fun a b => b.1 ∉ splitWS a.2)) :
+    (writeForRun s t).written = (linesKeep t).map (wordsLine s) ∧
+    (writeForRun s t).written.flatten = wordsText s t := by
+  have h : (writeForRun s t).written = (linesKeep t).map (wordsLine s) := by
+    rw [(lammps_edit_total s t hnd).1]
+    apply List.map_congr_left
+    intro l hl
+    exact substOfW_eq_wordsLine s l (G l hl)
+  exact ⟨h, by rw [h]; rfl⟩
+
+/-- the guard of `lammps_edit_words` holds, in particular, when no word of any value is a variable -/
+theorem lammps_edit_words_guard_of_values (s : Settings) (t : Str)
+    (h : ∀ kv ∈ s, ∀ k ∈ keys s, k ∉ splitWS kv.2) :
+    ∀ l ∈ linesKeep t, (onLine s l).Pairwise (fun a b => b.1 ∉ splitWS a.2) := by
+  intro l _
+  apply pairwise_of_forall
+  intro a ha b hb
+  exact h a (List.mem_filter.1 ha).1 b.1 (List.mem_map.2 ⟨b, (List.mem_filter.1 hb).1, rfl⟩)
+
+/-- non-vacuity: values with blanks, a value that contains a variable name inside a longer word, a variable
+    twice on a line, a longer word containing a variable — guard true, edit = specification -/
+example :
+    let s : Settings := [("infretis_a".toList, "1.5".toList), ("infretis_b".toList, "/tmp/x y/infretis_a.d".toList)]
+    let t : Str := "variable a index infretis_a # infretis_ab\nrun infretis_b\tinfretis_b infretis_a\n".toList
+    (keys s).Nodup ∧ (∀ l ∈ linesKeep t, (onLine s l).Pairwise (fun a b => b.1 ∉ splitWS a.2)) ∧
+    (writeForRun s t).written =
+      ["variable a index 1.5 # infretis_ab\n".toList,
+       "run /tmp/x y/infretis_a.d\t/tmp/x y/infretis_a.d 1.5\n".toList] ∧
+    (writeForRun s t).written.flatten = wordsText s t := by decide +kernel
+
+/-- **the guard of `lammps_edit_words` is needed**: with `x ↦ y`, `y ↦ 1` the line `x y` becomes `1 1` (the `y`
+    inserted for `x` is replaced in turn), word by word it is `y 1`; in the other dict order the same edit is
+    exact — the order of the keys matters -/
+theorem lammps_edit_words_guard_counterexample :
+    ∃ (s s' : Settings) (t : Str), (keys s).Nodup ∧ (writeForRun s t).err = none ∧
+      (writeForRun s t).written.flatten = "1 1\n".toList ∧ wordsText s t = "y 1\n".toList ∧
+      s' = s.reverse ∧ (writeForRun s' t).written.flatten = wordsText s' t ∧ wordsText s' t = "y 1\n".toList :=
+  ⟨[("x".toList, "y".toList), ("y".toList, "1".toList)], [("y".toList, "1".toList), ("x".toList, "y".toList)],
+   "x y\n".toList, by decide +kernel, by decide +kernel, by decide +kernel, by decide +kernel, by decide +kernel, by decide +kernel, by decide +kernel⟩
+
+/-- **finding C19:lammps:substring-on-a-requested-line (repaired by 48a6c1e).**  On
+    `log my_infretis_seed.log # infretis_seed` with `infretis_seed ↦ 0` the code before the repair
+    (`writeForRunSub`) also rewrote the longer word (`my_0.log`), which the word-level specification forbids;
+    the code as it is now equals the specification. -/
+theorem lammps_edit_words_same_line_counterexample :
+    ∃ (s : Settings) (t : Str), (keys s).Nodup ∧
+      (writeForRunSub s t).written.flatten = "log my_0.log # 0\n".toList ∧
+      (writeForRunSub s t).written.flatten ≠ wordsText s t ∧
+      (writeForRun s t).written.flatten = wordsText s t ∧
+      wordsText s t = "log my_infretis_seed.log # 0\n".toList ∧ (writeForRun s t).err = none :=
+  ⟨[("infretis_seed".toList, "0".toList)], "log my_infretis_seed.log # infretis_seed\n".toList,
+   by decide +kernel, by decide +kernel, by decide +kernel, by decide +kernel, by decide +kernel, by decide +kernel⟩
+
+/-- a line none of whose words is a variable is copied unchanged -/
 theorem lammps_untouched (s : Settings) (l : Str) (h : ∀ k ∈ keys s, k ∉ splitWS l) :
+    substOfW s l = l :=
+  substLineW_untouched _ s l h
+
+/-- a single requested variable, any line: exactly the words equal to it are replaced -/
+theorem lammps_requested_set (k v l : Str) :
+    substOfW [(k, v)] l = wordsLine [(k, v)] l := by
+  apply substOfW_eq_wordsLine
+  have hsub : (onLine [(k, v)] l).Sublist [(k, v)] := List.filter_sublist
+  exact List.Pairwise.sublist hsub (List.pairwise_singleton _ _)
+
+example : substOfW [("a".toList, "1 2".toList)] " a ab\ta".toList = " 1 2 ab\t1 2".toList := by decide +kernel
+
+/-- **edit_idempotent (LAMMPS), second half: what a further application does.**  On a text in
+    which no variable of `s` is a word any more, `write_for_run` copies every byte unchanged
+    and then takes its own error branch: ValueError naming the keys of `s` (unless `s` is empty). -/
+theorem lammps_apply_without_vars (s : Settings) (t : Str) (hnd : (keys s).Nodup)
+    (h0 : ∀ l ∈ linesKeep t, ∀ k ∈ keys s, k ∉ splitWS l) :
+    (writeForRun s t).written.flatten = t ∧
+    (writeForRun s t).err = if s = [] then none else some .value := by
+  have hocc : ∀ k ∈ keys s, occ k (linesKeep t) = 0 := by
+    intro k hk
+    unfold occ
+    rw [List.length_eq_zero_iff, List.filter_eq_nil_iff]
+    intro l hl
+    simpa using h0 l hl k hk
+  obtain ⟨o1, o2, o3, -⟩ := lammps_edit_total s t hnd
+  constructor
+  · rw [o1]
+    have : (linesKeep t).map (substOfW s) = linesKeep t := by
+      conv => rhs; rw [← List.map_id (linesKeep t)]
+      apply List.map_congr_left
+      intro l hl
+      exact substLineW_untouched _ s l (h0 l hl)
+    rw [this, linesKeep_join]
+  · cases s with
+    | nil => simp only [if_true]; exact o2.2 (by simp [keys])
+    | cons kv r =>
+      simp only [reduceCtorEq, if_false]
+      exact o3.2 ⟨kv.1, by simp [keys], hocc _ (by simp [keys])⟩
+
+example : writeForRun [("infretis_x".toList, "5".toList)] "variable a equal 5\nrun 1\n".toList
+    = { written := ["variable a equal 5\n".toList, "run 1\n".toList], err := some .value } := by decide +kernel
+
+/-! **edit_idempotent (LAMMPS), first half.**  The full statement
+
+    lammps_no_var_remains : ∀ l ∈ (writeForRun s t).written, ∀ k ∈ keys s, k ∉ splitWS l
+
+is still FALSE of the code as it is (also after 48a6c1e): a value may have a variable name among its WORDS, and
+that word is replaced only if the variable is also a word of the same template line and comes later in dict order
+(`lammps_no_var_remains_counterexample`).  It holds under the single guard
+  G1  no value that is substituted on a line has a variable of `s` among its words
+(`lammps_no_var_remains_partial`).  Compared with the substring version (section 2b) the guard is weaker twice
+over: variable names INSIDE longer words of a value are harmless now, and the former guard G2 on the template
+(no variable inside a longer template word) is gone. -/
+
+theorem lammps_no_var_remains_counterexample :
+    ∃ (s : Settings) (t : Str), (keys s).Nodup ∧ (writeForRun s t).err = none ∧
+      ∃ l ∈ (writeForRun s t).written, ∃ k ∈ keys s, k ∈ splitWS l :=
+  ⟨[("x".toList, "y".toList), ("y".toList, "1".toList)], "x\ny\n".toList, by decide +kernel, by decide +kernel,
+   "y\n".toList, by decide +kernel, "y".toList, by decide +kernel, by decide +kernel⟩
+
+/-- after the edit no variable of `s` is a word of any written line, provided no value substituted on a line has
+    a variable among its words (G1).  No condition on the template. -/
+theorem lammps_no_var_remains_partial (s : Settings) (t : Str) (hnd : (keys s).Nodup)
+    (G1 : ∀ l ∈ linesKeep t, ∀ kv ∈ onLine s l, ∀ k ∈ keys s, k ∉ splitWS kv.2) :
+    ∀ l ∈ (writeForRun s t).written, ∀ k ∈ keys s, k ∉ splitWS l := by
+  intro l hl
+  rw [(lammps_edit_total s t hnd).1] at hl
+  obtain ⟨l0, hl0, rfl⟩ := List.mem_map.1 hl
+  exact substOfW_no_var s l0 (G1 l0 hl0)
+
+/-- the guard of the substring version (no value CONTAINS a variable) implies G1 -/
+theorem lammps_no_var_remains_guard_of_substring_free (s : Settings) (t : Str)
+    (h : ∀ kv ∈ s, ∀ k ∈ keys s, ¬ k <:+: kv.2) :
+    ∀ l ∈ linesKeep t, ∀ kv ∈ onLine s l, ∀ k ∈ keys s, k ∉ splitWS kv.2 :=
+  fun _ _ kv hkv k hk hm => h kv (List.mem_filter.1 hkv).1 k hk (splitWS_mem_infix hm)
+
+/-- G1 is satisfiable together with a successful edit in which a value contains a variable name inside a longer
+    word and the template contains a variable inside a longer word (both excluded by the old guards) -/
+example :
+    let s : Settings := [("$a".toList, "x$a.d q".toList)]
+    let t : Str := "v $a my$a\n".toList
+    (keys s).Nodup ∧ (∀ l ∈ linesKeep t, ∀ kv ∈ onLine s l, ∀ k ∈ keys s, k ∉ splitWS kv.2) ∧
+    (writeForRun s t) = { written := ["v x$a.d q my$a\n".toList], err := none } := by decide +kernel
+
+/-! ## 2b. RECORD — LAMMPS `write_for_run` before 48a6c1e (substring `str.replace`)
+
+Everything in this section is about `writeForRunSub` (the code between f746fff and 48a6c1e: the line is
+selected when the variable is one of its words, then `line.replace(var, value)` rewrites every occurrence,
+also inside longer words — finding C19:lammps:substring-on-a-requested-line, repaired by 48a6c1e) and
+`writeForRunAsIs` (the code before f746fff, finding C19:lammps:variable-on-two-lines).  The theorems are the
+ones proved about the code when it was current; they remain true of these definitions and are kept so that
+the tie can name a regression by its old signature (driver ops `wfrS`, `wfrA`). -/
+
+/-- RECORD (substring version): **edit_total / edit_exact.**  Every template line is written, with
+    every variable that is one of its tokens substring-replaced (`substOf`); the call never
+    raises KeyError; it ends without error iff every variable is a token of at least one line,
+    and with the ValueError iff some variable is a token of no line.  Only guard: the settings
+    are a dict (distinct keys). -/
+theorem lammps_sub_edit_total (s : Settings) (t : Str) (hnd : (keys s).Nodup) :
+    (writeForRunSub s t).written = (linesKeep t).map (substOf s) ∧
+    ((writeForRunSub s t).err = none ↔ ∀ k ∈ keys s, 1 ≤ occ k (linesKeep t)) ∧
+    ((writeForRunSub s t).err = some .value ↔ ∃ k ∈ keys s, occ k (linesKeep t) = 0) ∧
+    (writeForRunSub s t).err ≠ some .key := by
+  obtain ⟨a, b, c⟩ := wfrLinesSub_spec' s (linesKeep t) (keys s) [] hnd (fun _ h => h)
+  refine ⟨by simpa [writeForRunSub] using a, by simpa [writeForRunSub] using b,
+          by simpa [writeForRunSub] using c, ?_⟩
+  intro hk
+  cases hcase : (writeForRunSub s t).err with
+  | none => rw [hcase] at hk; cases hk
+  | some e =>
+    cases e with
+    | value => rw [hcase] at hk; cases hk
+    | key =>
+      -- the error is `none` or `value`: decide by whether a variable is missing
+      by_cases hmiss : ∃ k ∈ keys s, occ k (linesKeep t) = 0
+      · have := (show (writeForRunSub s t).err = some .value from by simpa [writeForRunSub] using c.2 hmiss)
+        rw [hcase] at this; cases this
+      · have hall : ∀ k ∈ keys s, 1 ≤ occ k (linesKeep t) := by
+          intro k hk'
+          exact Nat.pos_of_ne_zero (fun h0 => hmiss ⟨k, hk', h0⟩)
+        have := (show (writeForRunSub s t).err = none from by simpa [writeForRunSub] using b.2 hall)
+        rw [hcase] at this; cases this
+
+/-- RECORD (substring version): a line none of whose tokens is a variable is copied unchanged -/
+theorem lammps_sub_untouched (s : Settings) (l : Str) (h : ∀ k ∈ keys s, k ∉ splitWS l) :
     substOf s l = l :=
   substLine_untouched _ s l h
 
-/-- a single requested variable: every occurrence on a line where it is a token is replaced -/
-theorem lammps_requested_set (k v l : Str) (h : k ∈ splitWS l) :
+/-- RECORD (substring version): a single requested variable: every occurrence (also inside longer words) on a
+    line where it is a token is replaced -/
+theorem lammps_sub_requested_set (k v l : Str) (h : k ∈ splitWS l) :
     substOf [(k, v)] l = replaceAll k v l := by
   simp [substOf, substLine, h]
 
 example : (keys [("infretis_x".toList, "5".toList)]).Nodup ∧
-    writeForRun [("infretis_x".toList, "5".toList)] "variable a equal infretis_x\nrun infretis_x\n".toList
-    = { written := ["variable a equal 5\n".toList, "run 5\n".toList], err := none } := by decide
+    writeForRunSub [("infretis_x".toList, "5".toList)] "variable a equal infretis_x\nrun infretis_x\n".toList
+    = { written := ["variable a equal 5\n".toList, "run 5\n".toList], err := none } := by decide +kernel
 
 /-- RECORD (code before f746fff): a variable that is a token of two lines made
     `not_found.pop(var)` raise KeyError on the second line, after the first lines had been
@@ -189,7 +406,7 @@ theorem lammps_asIs_edit_total_counterexample :
     ∃ (s : Settings) (t : Str), (keys s).Nodup ∧ (∀ k ∈ keys s, occ k (linesKeep t) ≥ 1) ∧
       writeForRunAsIs s t = { written := ["variable a equal 5\n".toList], err := some .key } :=
   ⟨[("infretis_x".toList, "5".toList)], "variable a equal infretis_x\nrun infretis_x\n".toList,
-   by decide, by decide, by decide⟩
+   by decide +kernel, by decide +kernel, by decide +kernel⟩
 
 /-- RECORD: the failure modes of the code before f746fff, exactly (success iff every variable
     on exactly one line; KeyError iff some variable on two or more lines) -/
@@ -205,20 +422,20 @@ theorem lammps_asIs_outcome (s : Settings) (t : Str) (hnd : (keys s).Nodup) :
     exact ⟨fun ⟨k, hk, h⟩ => ⟨k, hk, by rw [q k hk] at h; omega⟩,
            fun ⟨k, hk, h⟩ => ⟨k, hk, by rw [q k hk]; omega⟩⟩
 
-/-- **edit_idempotent (LAMMPS), second half: what a further application does.**  On a text in
+/-- RECORD (substring version): **edit_idempotent, second half: what a further application does.**  On a text in
     which no variable of `s` is a token any more, `write_for_run` copies every byte unchanged
     and then takes its own error branch: ValueError naming the keys of `s` (unless `s` is empty). -/
-theorem lammps_apply_without_vars (s : Settings) (t : Str) (hnd : (keys s).Nodup)
+theorem lammps_sub_apply_without_vars (s : Settings) (t : Str) (hnd : (keys s).Nodup)
     (h0 : ∀ l ∈ linesKeep t, ∀ k ∈ keys s, k ∉ splitWS l) :
-    (writeForRun s t).written.flatten = t ∧
-    (writeForRun s t).err = if s = [] then none else some .value := by
+    (writeForRunSub s t).written.flatten = t ∧
+    (writeForRunSub s t).err = if s = [] then none else some .value := by
   have hocc : ∀ k ∈ keys s, occ k (linesKeep t) = 0 := by
     intro k hk
     unfold occ
     rw [List.length_eq_zero_iff, List.filter_eq_nil_iff]
     intro l hl
     simpa using h0 l hl k hk
-  obtain ⟨o1, o2, o3, -⟩ := lammps_edit_total s t hnd
+  obtain ⟨o1, o2, o3, -⟩ := lammps_sub_edit_total s t hnd
   constructor
   · rw [o1]
     have : (linesKeep t).map (substOf s) = linesKeep t := by
@@ -233,43 +450,43 @@ theorem lammps_apply_without_vars (s : Settings) (t : Str) (hnd : (keys s).Nodup
       simp only [reduceCtorEq, if_false]
       exact o3.2 ⟨kv.1, by simp [keys], hocc _ (by simp [keys])⟩
 
-example : writeForRun [("infretis_x".toList, "5".toList)] "variable a equal 5\nrun 1\n".toList
-    = { written := ["variable a equal 5\n".toList, "run 1\n".toList], err := some .value } := by decide
+example : writeForRunSub [("infretis_x".toList, "5".toList)] "variable a equal 5\nrun 1\n".toList
+    = { written := ["variable a equal 5\n".toList, "run 1\n".toList], err := some .value } := by decide +kernel
 
-/-! **edit_idempotent (LAMMPS), first half.**  The full statement
+/-! RECORD (substring version): **edit_idempotent, first half.**  The full statement
 
-    lammps_no_var_remains : ∀ l ∈ (writeForRun s t).written, ∀ k ∈ keys s, k ∉ splitWS l
+    lammps_sub_no_var_remains : ∀ l ∈ (writeForRunSub s t).written, ∀ k ∈ keys s, k ∉ splitWS l
 
-is FALSE of the code as it is: a value may itself contain a variable name, and the tokens of a
+was FALSE of the substring version: a value may itself contain a variable name, and the tokens of a
 line are computed once, before the replacements, so such a variable is not substituted
-(`lammps_no_var_remains_counterexample`).  It holds under the guards
+(`lammps_sub_no_var_remains_counterexample`).  It holds under the guards
   G1  no value contains a variable of `s` as a substring,
   G2  a template token that contains a variable as a substring is that variable
-(`lammps_no_var_remains_partial`; the proof is the token-boundary theory of `str.replace` in
+(`lammps_sub_no_var_remains_partial`; the proof is the token-boundary theory of `str.replace` in
 `Lemmas/TemplateSubst.lean`). -/
 
-theorem lammps_no_var_remains_counterexample :
-    ∃ (s : Settings) (t : Str), (keys s).Nodup ∧ (writeForRun s t).err = none ∧
-      ∃ l ∈ (writeForRun s t).written, ∃ k ∈ keys s, k ∈ splitWS l :=
-  ⟨[("x".toList, "y".toList), ("y".toList, "1".toList)], "x\ny\n".toList, by decide, by decide,
-   "y\n".toList, by decide, "y".toList, by decide, by decide⟩
+theorem lammps_sub_no_var_remains_counterexample :
+    ∃ (s : Settings) (t : Str), (keys s).Nodup ∧ (writeForRunSub s t).err = none ∧
+      ∃ l ∈ (writeForRunSub s t).written, ∃ k ∈ keys s, k ∈ splitWS l :=
+  ⟨[("x".toList, "y".toList), ("y".toList, "1".toList)], "x\ny\n".toList, by decide +kernel, by decide +kernel,
+   "y\n".toList, by decide +kernel, "y".toList, by decide +kernel, by decide +kernel⟩
 
-/-- after the edit no variable of `s` is a token of any written line, for values free of variable names (G1) and templates in which variables
+/-- RECORD (substring version): after the edit no variable of `s` is a token of any written line, for values free of variable names (G1) and templates in which variables
     occur only as whole tokens (G2) -/
-theorem lammps_no_var_remains_partial (s : Settings) (t : Str) (hnd : (keys s).Nodup)
+theorem lammps_sub_no_var_remains_partial (s : Settings) (t : Str) (hnd : (keys s).Nodup)
     (G1 : ∀ kv ∈ s, ∀ k ∈ keys s, ¬ k <:+: kv.2)
     (G2 : ∀ l ∈ linesKeep t, ∀ tok ∈ splitWS l, ∀ k ∈ keys s, k <:+: tok → tok = k) :
-    ∀ l ∈ (writeForRun s t).written, ∀ k ∈ keys s, k ∉ splitWS l := by
+    ∀ l ∈ (writeForRunSub s t).written, ∀ k ∈ keys s, k ∉ splitWS l := by
   intro l hl
-  rw [(lammps_edit_total s t hnd).1] at hl
+  rw [(lammps_sub_edit_total s t hnd).1] at hl
   obtain ⟨l0, hl0, rfl⟩ := List.mem_map.1 hl
   exact substOf_no_var s l0 G1 (G2 l0 hl0)
 
 example :
     let s : Settings := [("infretis_a".toList, "1.5".toList), ("infretis_b".toList, "/tmp/x y".toList)]
     let t : Str := "variable a index infretis_a # c\nrun infretis_b infretis_b\n".toList
-    (keys s).Nodup ∧ (writeForRun s t).written =
-      ["variable a index 1.5 # c\n".toList, "run /tmp/x y /tmp/x y\n".toList] := by decide
+    (keys s).Nodup ∧ (writeForRunSub s t).written =
+      ["variable a index 1.5 # c\n".toList, "run /tmp/x y /tmp/x y\n".toList] := by decide +kernel
 
 /-- the guards G1, G2 are satisfiable together with a successful edit -/
 example :
@@ -277,14 +494,14 @@ example :
     (∀ kv ∈ [("$a".toList, "1".toList)], ∀ k ∈ keys [("$a".toList, "1".toList)], ¬ k <:+: kv.2) ∧
     (∀ l ∈ linesKeep "v $a\n".toList, ∀ tok ∈ splitWS l, ∀ k ∈ keys [("$a".toList, "1".toList)],
         k <:+: tok → tok = k) := by
-  have hl : linesKeep "v $a\n".toList = ["v $a\n".toList] := by decide
-  have hs : splitWS "v $a\n".toList = ["v".toList, "$a".toList] := by decide
-  refine ⟨by decide, ?_, ?_⟩
+  have hl : linesKeep "v $a\n".toList = ["v $a\n".toList] := by decide +kernel
+  have hs : splitWS "v $a\n".toList = ["v".toList, "$a".toList] := by decide +kernel
+  refine ⟨by decide +kernel, ?_, ?_⟩
   · intro kv hkv k hk hinf
     simp only [List.mem_singleton] at hkv
     simp only [keys, List.map_cons, List.map_nil, List.mem_singleton] at hk
     subst hkv; subst hk
-    exact absurd (hinf.subset (by decide : '$' ∈ "$a".toList)) (by decide)
+    exact absurd (hinf.subset (by decide +kernel : '$' ∈ "$a".toList)) (by decide +kernel)
   · intro l hl' tok htok k hk hinf
     rw [hl] at hl'
     simp only [List.mem_singleton] at hl'
@@ -294,8 +511,20 @@ example :
     subst hk
     simp only [List.mem_cons, List.not_mem_nil, or_false] at htok
     rcases htok with rfl | rfl
-    · exact absurd (hinf.subset (by decide : '$' ∈ "$a".toList)) (by decide)
+    · exact absurd (hinf.subset (by decide +kernel : '$' ∈ "$a".toList)) (by decide +kernel)
     · rfl
+
+/-- RECORD (substring version): on a line where the variables that are words of the line occur nowhere else on
+    that line (G1: not inside the value of such a variable, G2: not inside a longer word) the substring replacement
+    equals the word-level specification -/
+theorem lammps_sub_edit_words_partial (s : Settings) (l : Str)
+    (G1 : ∀ kv ∈ onLine s l, ∀ k ∈ keys (onLine s l), ¬ k <:+: kv.2)
+    (G2 : ∀ tok ∈ splitWS l, ∀ k ∈ keys (onLine s l), k <:+: tok → tok = k) :
+    substOf s l = wordsLine s l :=
+  substOf_eq_wordsLine s l G1 G2
+
+example : substOf [("a".toList, "1".toList)] "x a # a\n".toList = wordsLine [("a".toList, "1".toList)] "x a # a\n".toList := by
+  decide +kernel
 
 end Tmpl
 
@@ -456,6 +685,76 @@ theorem cp2k_duplicate_children_counterexample :
   Infretis.Cp2k.cp2k_duplicate_children_counterexample
 
 example : dget updMerge.target stMD.ref = some 1 ∧ stMD.arena[1]?.isSome = true ∧ updMerge.isList = false := by decide
+
+/-! ### the whole update loop of `update_cp2k_input`, and `write_for_run_vel`
+
+`applyUpdates us st` is the loop `for target, value in update.items(): update_node(...)` on the state `st`
+(arena of nodes, roots, `node_ref`).  Invariants of a parsed state: `RefOk` (every key names a node of the arena)
+and `RefInj` (no two keys name the same node); both are decidable on a concrete state
+(`refOk_of_all`, `refInj_of_nodup`) and kept by every `update_node` (`cp2k_edit_many_exact`). -/
+
+/-- **edit_exact (CP2K), the whole loop, any entries.**  `Grow st st' T`: no node of the template is lost or moved
+    (title, parent, level kept; children lists and the root list only grow at the end; every key keeps its node;
+    keys that are new name nodes that are new), and a node keeps its settings and data unless its index is in
+    `T` = the nodes that the targets of the entries name in the template. -/
+theorem cp2k_edit_many_exact (us : List Upd) (st st' : St) (hwf : RefOk st) (hinj : RefInj st)
+    (h : applyUpdates us st = .ok st') :
+    RefOk st' ∧ RefInj st' ∧ Grow st st' (us.filterMap (fun u => dget u.target st.ref)) :=
+  Infretis.Cp2k.cp2k_edit_many_exact us st st' hwf hinj h
+
+/-- **edit_idempotent (CP2K), the whole loop.**  Entries with pairwise distinct targets (a dict), each either
+    replace-mode with ready lines (list data, or a dict whose values are all `None`) or merge-mode with a dict whose
+    keys are distinct single tokens (`Guard`): after the loop every target exists and is a fixed point of its entry
+    (`Settled`), whether it existed before or had to be created (with its parents), and a second run of the loop
+    returns the very same state. -/
+theorem cp2k_edit_many_idempotent (us : List Upd) (st st' : St) (hwf : RefOk st) (hinj : RefInj st)
+    (hnd : (us.map (·.target)).Nodup) (hg : ∀ u ∈ us, Guard u) (h : applyUpdates us st = .ok st') :
+    (∀ u ∈ us, Settled u st') ∧ applyUpdates us st' = .ok st' :=
+  Infretis.Cp2k.cp2k_edit_many_idempotent us st st' hwf hinj hnd hg h
+
+/-- what "settled" gives: in replace mode the section's data ARE the requested lines; in merge mode every requested
+    `KEY value` (bare `KEY` for `None`) is a line of the section -/
+theorem cp2k_settled_data (u : Upd) (st : St) (hs : Settled u st) :
+    (u.replace = true → ∃ i n, dget u.target st.ref = some i ∧ st.arena[i]? = some n ∧ n.data = u.data.map (·.1)) ∧
+    (u.replace = false → u.isList = false → DataOk u.data →
+      ∃ i n, dget u.target st.ref = some i ∧ st.arena[i]? = some n ∧ ∀ kv ∈ u.data, fmtEntry kv ∈ n.data) :=
+  ⟨fun hr => hs.replace_data hr, fun hr hl hok => hs.merge_data hr hl hok⟩
+
+/-- **`write_for_run_vel`** (the edit the CP2K engine makes before every run; `wfrVelUpdates` mirrors the dict it
+    builds, `writeForRunVel` the whole function on file contents).  For every parsed state, project name, step
+    numbers, print frequency and every list of velocities: if the loop succeeds, a second run of the loop changes
+    nothing; the VELOCITY section holds exactly one line `vx vy vz` per atom, in order; GLOBAL holds exactly the three
+    requested lines; MD has the requested STEPS (= nsteps·subcycles) and TIMESTEP lines; every node not addressed
+    by one of the nine targets keeps its settings and data.  (Numbers are carried as the text Python prints.) -/
+theorem cp2k_wfrvel_loop (name timestep posfile : Str) (nsteps subcycles : Int) (pf : Option Int)
+    (vel : List (Str × Str × Str)) (st st' : St) (hwf : RefOk st) (hinj : RefInj st)
+    (h : applyUpdates (wfrVelUpdates name timestep posfile nsteps subcycles pf vel) st = .ok st') :
+    applyUpdates (wfrVelUpdates name timestep posfile nsteps subcycles pf vel) st' = .ok st' ∧
+    (∃ i n, dget "FORCE_EVAL->SUBSYS->VELOCITY".toList st'.ref = some i ∧ st'.arena[i]? = some n ∧
+      n.data = vel.map velLine) ∧
+    (∃ i n, dget "GLOBAL".toList st'.ref = some i ∧ st'.arena[i]? = some n ∧
+      n.data = ["PROJECT ".toList ++ name, "RUN_TYPE MD".toList, "PRINT_LEVEL LOW".toList]) ∧
+    (∃ i n, dget "MOTION->MD".toList st'.ref = some i ∧ st'.arena[i]? = some n ∧
+      ("STEPS".toList ++ [' '] ++ intStr (nsteps * subcycles)) ∈ n.data ∧ ("TIMESTEP".toList ++ [' '] ++ timestep) ∈ n.data) ∧
+    Grow st st' ((wfrVelUpdates name timestep posfile nsteps subcycles pf vel).filterMap (fun u => dget u.target st.ref)) :=
+  Infretis.Cp2k.wfrVel_loop name timestep posfile nsteps subcycles pf vel st st' hwf hinj h
+
+/-- the entries of `write_for_run_vel` always satisfy the hypotheses of `cp2k_edit_many_idempotent` -/
+theorem cp2k_wfrvel_entries_ok (name timestep posfile : Str) (nsteps subcycles : Int) (pf : Option Int)
+    (vel : List (Str × Str × Str)) :
+    ((wfrVelUpdates name timestep posfile nsteps subcycles pf vel).map (·.target)).Nodup ∧
+    ∀ u ∈ wfrVelUpdates name timestep posfile nsteps subcycles pf vel, Guard u :=
+  ⟨wfrVel_nodup name timestep posfile nsteps subcycles pf vel, wfrVel_guard name timestep posfile nsteps subcycles pf vel⟩
+
+/-- concrete run (kernel-checked): the template `&MOTION / &MD / STEPS 10`, two atoms — every missing section is
+    created, STEPS rewritten in place, TIMESTEP appended -/
+theorem cp2k_wfrvel_witness :
+    writeForRunVel tplMD "md_step".toList "0.25".toList "conf.xyz".toList 7 3 none velRun = .ok outRun :=
+  Infretis.Cp2k.wfrVel_run_witness
+
+/-- non-vacuity of the hypotheses: the parsed `tplMD` is well formed -/
+example : RefOk stMD ∧ RefInj stMD ∧ (readText tplMD).map RS.toSt = .ok stMD := ⟨stMD_inv.1, stMD_inv.2, by decide⟩
+
 
 end Cp2k
 
@@ -686,5 +985,82 @@ example : boxMatrixToList ⟨1, 2, 3, 4, 5, 6, 7, 8, 9⟩ true = [1, 5, 9, 2, 3,
     3 < countNonzero ⟨10, 2, 3, 0, 11, 4, 0, 0, 12⟩ := by decide
 
 end Box
+
+/-! ## 7. the CP2K cell reader: `read_box_data` / `read_cp2k_box`
+
+`readBoxData lines` mirrors `cp2k.read_box_data` on the lines of the `FORCE_EVAL->SUBSYS->CELL` section (a line belongs
+to key K iff it starts with `K` and ONE blank; the last line of a key wins; A, B, C are the COLUMNS of the matrix;
+`box_matrix_to_list` flattens it); `readCp2kBox` is the whole `read_cp2k_box` from the file content (the CP2K parser
+of section 3, `node_ref["FORCE_EVAL->SUBSYS->CELL"]`, the 100 Å fallback).  Numbers are the integer tokens
+`[+-]digits[.0*]`; `vecLine K v` prints `K x y z` with decimal integers (the specification's writer). -/
+section BoxData
+open Infretis.BoxData
+open Infretis.Box
+
+/-- a printed integer is read back as itself (so is every list of them, left to right) -/
+theorem cp2k_cell_number_roundtrip (i : Int) (v : List Int) :
+    classify (intTok i) = .int i ∧ nums (v.map intTok) = .ok v :=
+  ⟨classify_intTok i, nums_intToks v⟩
+
+/-- a printed line `K x …` is recognised by its own key and by no other of the six -/
+theorem cp2k_cell_line_own_key (k k' : Key) (x : Int) (r : List Int) :
+    startsKey k' (vecLine k (x :: r)) = decide (k' = k) :=
+  startsKey_vecLine k k' x r
+
+/-- **read ∘ write (CP2K cell vectors).**  Whatever lines come first (read without error), the three lines `A …`,
+    `B …`, `C …` make the box the flattening, in the order xx yy zz xy xz yx yz zx zy, of the matrix whose COLUMNS are
+    A, B, C; earlier `A`/`B`/`C`/`ABC`/angle lines do not matter (the last line of a key wins, A/B/C take precedence);
+    the periodic setting is the one collected from the preceding lines. -/
+theorem cp2k_cell_read_write (pre : List Infretis.BoxData.Str) (d : BoxDict) (a b c : Int × Int × Int)
+    (hpre : collect pre {} = .ok d) :
+    readBoxData (pre ++ [vecLine .A (vec3 a), vecLine .B (vec3 b), vecLine .C (vec3 c)]) =
+      .ok (some (cellABC a b c), periodicFlags d.periodic) :=
+  readBoxData_cell pre d a b c hpre
+
+example : collect ["PERIODIC xy".toList, "ABC 9 9 9".toList, "A 1 1 1".toList] {} =
+    .ok { a := some [1, 1, 1], abc := some [9, 9, 9], periodic := some "xy".toList } ∧
+    periodicFlags (some "xy".toList) = (true, true, false) := by decide +kernel
+
+/-- **the nine numbers lose nothing**: the matrix with columns A, B, C is recovered from the box that
+    `read_box_data` returns — for every cell with more than three non-zero entries (every non-degenerate triclinic
+    cell) and every diagonal cell.  (With ≤ 3 non-zero entries off the diagonal `box_matrix_to_list` returns the
+    diagonal only: the `count_nonzero` quirk recorded in section 6.) -/
+theorem cp2k_cell_lossless (a b c : Int × Int × Int)
+    (h : 3 < countNonzero (colMatrix a b c) ∨ colMatrix a b c = ⟨a.1, 0, 0, 0, b.2.1, 0, 0, 0, c.2.2⟩) :
+    listToMatrix (cellABC a b c) = some (colMatrix a b c) :=
+  cell_lossless a b c h
+
+example : 3 < countNonzero (colMatrix (10, 0, 0) (2, 11, 0) (3, 4, 12)) ∧
+    colMatrix (10, 0, 0) (2, 11, 0) (3, 4, 12) = ⟨10, 2, 3, 0, 11, 4, 0, 0, 12⟩ := by decide
+
+/-- `ABC` alone gives the numbers as they are (any count ≥ 1); lengths with three right angles give the rectangular
+    box `l0, |l1|, |l2|` (the only rational case of `box_vector_angles`: cos 90° is replaced by 0.0) -/
+theorem cp2k_cell_lengths (x : Int) (v : List Int) (l0 l1 l2 : Int) (h1 : l1 ≠ 0) :
+    readBoxData [vecLine .ABC (x :: v)] = .ok (some (x :: v), (true, true, true)) ∧
+    readBoxData [vecLine .ABC [l0, l1, l2], vecLine .ABG [90, 90, 90]] =
+      .ok (some [l0, (l1.natAbs : Int), (l2.natAbs : Int)], (true, true, true)) :=
+  ⟨readBoxData_abc v x, readBoxData_ortho l0 l1 l2 h1⟩
+
+/-- the rules that are easy to trip over, on concrete lines (kernel-checked): a lower-case key, a tab after the key
+    and a key without blank are NOT recognised; a unit in brackets is a ValueError; a vector of two numbers cannot be
+    a column; fewer than three angles is an IndexError; `PERIODIC NONE` switches all three directions off -/
+theorem cp2k_cell_reader_rules :
+    readBoxData ["a 1 2 3".toList, "A\t7 7 7".toList, "ABC".toList] = .ok (none, (true, true, true)) ∧
+    readBoxData ["ABC [angstrom] 10 10 10".toList] = .error .value ∧
+    readBoxData ["A 1 2".toList, "B 1 2 3".toList, "C 1 2 3".toList] = .error .value ∧
+    readBoxData ["ABC 1 2 3".toList, "ALPHA_BETA_GAMMA 90 90".toList] = .error .index ∧
+    readBoxData ["PERIODIC NONE".toList] = .ok (none, (false, false, false)) :=
+  ⟨by decide +kernel, by decide +kernel, by decide +kernel, by decide +kernel, by decide +kernel⟩
+
+set_option maxRecDepth 8000 in
+/-- `read_cp2k_box` end to end on file contents: the CELL section is found through the section tree (section names
+    in any case), its lines are read by `read_box_data`; a file without `FORCE_EVAL->SUBSYS->CELL` gives the fallback -/
+theorem cp2k_box_from_file :
+    readCp2kBox "&force_eval\n &SUBSYS\n  &CELL\n   A 10 0 0\n   B 2 11 0\n   C 3 4 12\n   PERIODIC XY\n  &END CELL\n &END SUBSYS\n&END\n".toList
+      = .ok (.cell (some [10, 11, 12, 2, 3, 0, 4, 0, 0]) (true, true, false)) ∧
+    readCp2kBox "&FORCE_EVAL\n &SUBSYS\n &END SUBSYS\n&END\n".toList = .ok .fallback :=
+  ⟨by decide +kernel, by decide +kernel⟩
+
+end BoxData
 
 end Infretis.C19
